@@ -23,6 +23,8 @@ def queries(tier):
     for (k, n) in [(2, 3), (2, 4), (2, 6), (2, 8), (2, 12), (2, 16), (2, 19), (4, 32), (4, 16), (8, 64)]:
         qs.append(Q(f'qs_iter_k{k}_n{n}', 'quant', 'c07_qs_iter.c', defs={'KK': k, 'NN': n}, unwind=30, unwindset={'^(harness|verif_mem.*|verif_new.*)$': 70}, timeout=(300 if tier == 'quick' else 1500),
                     native_vectors=100, c_defs={'VERIF_NEW_CAPN': 64, 'VERIF_VEC_CAP': 32}, mem_gb=10))
+    qs.append(Q('kll_mink_chain', 'quant', 'c07_kll_mink.c', defs={'NSYM': 2}, unwind=20, unwindset={'^(harness|verif_mem.*|verif_new.*)$': 70}, timeout=(300 if tier == 'quick' else 1500),
+                native_vectors=100, c_defs={'VERIF_NEW_CAPN': 64, 'VERIF_VEC_CAP': 32}, mem_gb=10))
     # kll iterator on injected level populations, incl. empty level 0 / empty intermediate levels
     for name, pops in [('p3', '3'), ('p04', '0,4'), ('p104', '1,0,4'), ('p0004', '0,0,0,4'), ('p222', '2,2,2'), ('p020', '0,2,0')]:
         qs.append(Q(f'kll_iter_{name}', 'quant', 'c07_kll_iter.c', defs={'POPS': pops}, unwind=14, unwindset={'^(harness|verif_mem.*|verif_new.*)$': 70}, timeout=(300 if tier == 'quick' else 1500),
